@@ -53,8 +53,40 @@ type rxGroup struct {
 
 // rxGroups returns, for input bytes in, the mutually exclusive outcomes of FindSubmatch: one per distinct capture
 // tuple (in priority order) and the no-match condition.
-func (ex *Exec) rxGroups(h *rxHandle, in []*term.Term) ([]rxGroup, *term.Term) {
-	paths, err := h.M.Paths(len(in), rxBudget)
+// allowedSets derives, from the state's facts, which bytes each input position can hold at all.
+func (ex *Exec) allowedSets(st *State, in []*term.Term) []rx.ByteSet {
+	f := st.facts()
+	var out []rx.ByteSet
+	restricted := false
+	for _, b := range in {
+		var s rx.ByteSet
+		if vals, ok := f.getVals(b.ID); ok && !b.IsConst() {
+			for _, v := range vals {
+				s.Add(byte(v))
+			}
+			restricted = true
+		} else {
+			r := f.rangeOf(b)
+			if r.lo > r.hi {
+				r.hi = r.lo
+			}
+			for v := r.lo; v <= r.hi && v < 256; v++ {
+				s.Add(byte(v))
+			}
+			if r.lo > 0 || r.hi < 255 {
+				restricted = true
+			}
+		}
+		out = append(out, s)
+	}
+	if !restricted {
+		return nil
+	}
+	return out
+}
+
+func (ex *Exec) rxGroups(st *State, h *rxHandle, in []*term.Term) ([]rxGroup, *term.Term) {
+	paths, err := h.M.PathsAllowed(len(in), rxBudget, ex.allowedSets(st, in))
 	if err != nil {
 		abort("UNSUPPORTED", "%v (pattern %q, input length %d)", err, h.M.Source, len(in))
 	}
@@ -96,8 +128,8 @@ func (ex *Exec) rxGroups(h *rxHandle, in []*term.Term) ([]rxGroup, *term.Term) {
 	return groups, term.Not(any)
 }
 
-func (ex *Exec) rxMatch(h *rxHandle, in []*term.Term) *term.Term {
-	paths, err := h.M.Paths(len(in), rxBudget)
+func (ex *Exec) rxMatch(st *State, h *rxHandle, in []*term.Term) *term.Term {
+	paths, err := h.M.PathsAllowed(len(in), rxBudget, ex.allowedSets(st, in))
 	if err != nil {
 		abort("UNSUPPORTED", "%v (pattern %q, input length %d)", err, h.M.Source, len(in))
 	}
@@ -134,7 +166,7 @@ func init() {
 		h := rxOf(c.St, c.Args[0])
 		b := c.Args[1].(SliceV)
 		in := ex.sliceBytes(c.St, b)
-		groups, none := ex.rxGroups(h, in)
+		groups, none := ex.rxGroups(c.St, h, in)
 		var out []*callResult
 		type alt struct {
 			cond *term.Term
@@ -169,11 +201,11 @@ func init() {
 	}
 	Stubs["(*regexp.Regexp).Match"] = func(ex *Exec, c *CallCtx) []*callResult {
 		h := rxOf(c.St, c.Args[0])
-		return c.ret(ex.rxMatch(h, ex.sliceBytes(c.St, c.Args[1].(SliceV))))
+		return c.ret(ex.rxMatch(c.St, h, ex.sliceBytes(c.St, c.Args[1].(SliceV))))
 	}
 	Stubs["(*regexp.Regexp).MatchString"] = func(ex *Exec, c *CallCtx) []*callResult {
 		h := rxOf(c.St, c.Args[0])
-		return c.ret(ex.rxMatch(h, c.Args[1].(StringV).B))
+		return c.ret(ex.rxMatch(c.St, h, c.Args[1].(StringV).B))
 	}
 	Stubs["regexp.MatchString"] = func(ex *Exec, c *CallCtx) []*callResult {
 		pat, ok := c.Args[0].(StringV).Concrete()
@@ -184,7 +216,7 @@ func init() {
 		if err != nil {
 			return c.ret(TupleV{term.False(), ex.newError(c.St, err.Error())})
 		}
-		return c.ret(TupleV{ex.rxMatch(&rxHandle{M: m}, c.Args[1].(StringV).B), IfaceV{}})
+		return c.ret(TupleV{ex.rxMatch(c.St, &rxHandle{M: m}, c.Args[1].(StringV).B), IfaceV{}})
 	}
 
 	// ---- misc environment ----
